@@ -180,32 +180,49 @@ def decIndex (r : Bytes) : Option (List Nat × Bytes) :=
   | none => none
   | some (n, r1) => readNats u32W n r1
 
-/-- the loop of `slices.BinarySearchFunc`; `cmpAt h = none` models a failed `readKey` -/
-def bsLoop (cmpAt : Nat → Option Ordering) : (fuel lo hi : Nat) → Option Nat
-  | 0, lo, _ => some lo
+/-- result of a step of the real code that can fail with an error value or by panicking -/
+inductive Outcome (α : Type) where
+  | ok (a : α)
+  | err
+  | panic
+deriving DecidableEq, Repr
+
+/-- the loop of `slices.BinarySearchFunc`; `cmpAt h` not `ok` models a failed or panicking `readKey` -/
+def bsLoop (cmpAt : Nat → Outcome Ordering) : (fuel lo hi : Nat) → Outcome Nat
+  | 0, lo, _ => .ok lo
   | fuel + 1, lo, hi =>
     if lo < hi then
       match cmpAt ((lo + hi) / 2) with
-      | none => none
-      | some .lt => bsLoop cmpAt fuel ((lo + hi) / 2 + 1) hi
-      | some _ => bsLoop cmpAt fuel lo ((lo + hi) / 2)
-    else some lo
+      | .err => .err
+      | .panic => .panic
+      | .ok .lt => bsLoop cmpAt fuel ((lo + hi) / 2 + 1) hi
+      | .ok _ => bsLoop cmpAt fuel lo ((lo + hi) / 2)
+    else .ok lo
 
 inductive SearchRes where
   | range (start : Nat) (stop : Option Nat)   -- `stop = none` is `math.MaxInt64`
   | err
+  | panic
 deriving DecidableEq, Repr
 
+/-- the comparison callback of `Search`: `bytes.Compare(key, targetKey)` on what `readKey` returned -/
+def cmpKey (target : Bytes) : Outcome Bytes → Outcome Ordering
+  | .ok k => .ok (Bytes.cmp k target)
+  | .err => .err
+  | .panic => .panic
+
 /-- `SearchIndex.Search` (after D19: an inexact hit at index 0 stays at index 0) -/
-def search (offsets : List Nat) (readKey : Nat → Option Bytes) (target : Bytes) : SearchRes :=
+def search (offsets : List Nat) (readKey : Nat → Outcome Bytes) (target : Bytes) : SearchRes :=
   if offsets.isEmpty then .range 0 none else
-  let cmpAt := fun i => (readKey (offsets.getD i 0)).map (fun k => Bytes.cmp k target)
+  let cmpAt := fun i => cmpKey target (readKey (offsets.getD i 0))
   match bsLoop cmpAt offsets.length 0 offsets.length with
-  | none => .err
-  | some i =>
-    match (if i < offsets.length then cmpAt i else some .lt) with
-    | none => .err
-    | some o =>
+  | .err => .err
+  | .panic => .panic
+  | .ok i =>
+    match (if i < offsets.length then cmpAt i else .ok .lt) with
+    | .err => .err
+    | .panic => .panic
+    | .ok o =>
       let found := if o = .eq then i else if 0 < i then i - 1 else i
       .range (offsets.getD found 0)
         (if found + 1 = offsets.length then none else some (offsets.getD (found + 1) 0))
@@ -265,6 +282,7 @@ inductive GetRes where
   | found (e : Entry)
   | notFound
   | err
+  | panic          -- `Cursor.Move` beyond the entries block (only with an index that the writer did not produce)
 deriving DecidableEq, Repr
 
 /-- `cur.Offset() < end` -/
@@ -284,13 +302,24 @@ def scanGet (key : Bytes) (stop : Option Nat) : (fuel : Nat) → (r : Bytes) →
         | some (e, r') => if e.key = key then .found e else scanGet key stop fuel r' (off + (r.length - r'.length))
     else .notFound
 
+/-- the `readKey` closure of `Table.Get`: `cur.Move(offset)` on the cursor bounded by the entries block panics beyond
+the bound ("cursor move to … after end bound"), then `fields.ReadVarBytes` -/
+def readKeyAt (ent : Bytes) (bound : Nat) (off : Nat) : Outcome Bytes :=
+  if bound < off then .panic
+  else match readVar (ent.drop off) with
+    | some (k, _) => .ok k
+    | none => .err
+
 /-- `Table.Get` on a table with loaded metadata -/
 def get (m : Meta) (entriesSize : Nat) (data : Bytes) (key : Bytes) : GetRes :=
   if !m.bloom.mightHave key then .notFound else
   let ent := data.take entriesSize
-  match search m.offsets (fun off => (readVar (ent.drop off)).map (·.1)) key with
+  match search m.offsets (readKeyAt ent entriesSize) key with
   | .err => .err
-  | .range start stop => scanGet key stop ((ent.drop start).length + 1) (ent.drop start) start
+  | .panic => .panic
+  | .range start stop =>
+    if entriesSize < start then .panic        -- `cur.Move(start)`
+    else scanGet key stop ((ent.drop start).length + 1) (ent.drop start) start
 
 /-- all rows of the entries block in file order; `none` = a read error -/
 def scanAll : (fuel : Nat) → Bytes → Option (List Entry)
